@@ -72,6 +72,6 @@ def build(is85):
 
 
 ISAS = [
-    Isa("8080", "8080", build(False), "intel", slot=8, base=0x1000, offsets=[0, 1, 5]),
-    Isa("8085", "8085", build(True), "intel", slot=8, base=0x1000, offsets=[0, 1, 5], golden=[("t_85", {"8085": True})]),
+    Isa("8080", "8080", build(False), "intel", pcsym="$", slot=8, base=0x1000, offsets=[0, 1, 5]),
+    Isa("8085", "8085", build(True), "intel", pcsym="$", slot=8, base=0x1000, offsets=[0, 1, 5], golden=[("t_85", {"8085": True})]),
 ]
